@@ -305,5 +305,12 @@ def paths(cfg, start, stop, env0=None, transfer=None, max_visits=2, limit=50000,
             if node.kind in ('test', 'loop') and node.test is not None and lab in (True, False):
                 e2 = dict(env)
                 learn(node.test, lab, e2)
+            if node.kind == 'loop' and isinstance(node.stmt, ast.For) and lab is True:
+                # a new iteration rebinds the loop target: facts about it are stale
+                e2 = dict(e2)
+                for x in ast.walk(node.stmt.target):
+                    if isinstance(x, ast.Name):
+                        for k in [k for k in e2 if not k.startswith('#') and _mentions(k, x.id)]:
+                            e2.pop(k)
             stack.append((n, path + (n,), e2, v2))
     return out
